@@ -41,6 +41,13 @@ Theorem C11_well_placed_no_error : forall n seps il, well_placed il n = true -> 
 Proof. exact well_placed_no_error. Qed.
 Print Assumptions C11_well_placed_no_error.
 
+(* the flat vector of objtree.rs (post-order, child index lists, root last) represents the document tree faithfully: node i carries
+   the object's kind and name, and its child indices denote the children in document order *)
+Theorem C11_flat_vector_represents_tree : forall root,
+  map fname (flatten_tree root) = post_order root /\ represents (flatten_tree root) (length (flatten_tree root) - 1) root.
+Proof. exact flatten_tree_spec. Qed.
+Print Assumptions C11_flat_vector_represents_tree.
+
 (* non-vacuity: a form with a layout, a nested widget, a menu, an action, a separator and a spacer *)
 Example C11_ex :
   let t := ON KWidget 0 None [ON KLayout 1 None [ON KWidget 2 None [ON KAction 3 None []; ON KSeparator 4 None []; ON KMenu 5 None []];
